@@ -65,6 +65,8 @@ def recheck(sel, tier):
         meta = json.load(open(d))
         if sel and not any(s in meta["name"] for s in sel):
             continue
+        if S.SHARD and (sum(map(ord, meta["name"])) % S.SHARD[1]) != S.SHARD[0]:
+            continue
         run(meta["name"], meta, tier)
         json.dump(meta, open(d, "w"), indent=1)
         print(meta["name"], "alarms", meta.get("alarms_" + tier))
